@@ -18,8 +18,9 @@ META = {
     "level": "model_checking",
     "technique": "explicit-state BFS over event histories on the real HostKeys object (prefix replay, states merged "
                  "on the entry list), compared in every state with a reference known_hosts table",
-    "text": "Every known_hosts file of <=2 lines (quick; thorough adds all 3-line files) over a 12-line alphabet "
-            "(plain, multi-host, hashed, same-type other key, other type, [host]:port, comment, blank, malformed, "
+    "text": "Every known_hosts file of <=2 lines (quick; thorough adds all 3-line files) over a 16-line alphabet "
+            "(plain, multi-host, hashed, hashed name at each position of a multi-name line (plain+hashed, "
+            "hashed+plain, hashed+hashed, hashed in the middle of three), same-type other key, other type, [host]:port, comment, blank, malformed, "
             "unknown type) x every history of <=2 events (thorough: <=3 on the <=2-line files) out of load again, "
             "add, delete, set via per-host view, save+reload after the first load: lookup()/check() equal the "
             "reference for 4 names x 3 keys, save+reload preserves lookups, loading the same file again changes "
@@ -60,6 +61,11 @@ LINES = {
     "h2:K1": kline("h2", "K1"),
     "[h1]:2222:K1": kline("[h1]:2222", "K1"),
     "h2,h1:E1": kline("h2,h1", "E1"),
+    # hashed names at every position of a multi-name line, mixed with plain names
+    "h3,#h2:K1": kline("h3," + HASHED["#h2"], "K1"),
+    "#h2,h3:K2": kline(HASHED["#h2"] + ",h3", "K2"),
+    "#h1,#h2:E1": kline(HASHED["#h1"] + "," + HASHED["#h2"], "E1"),
+    "h3,#h2,[h1]:2222:K2": kline("h3," + HASHED["#h2"] + ",[h1]:2222", "K2"),
     "comment": "# h1 is commented out " + KB64["K1"][:12],
     "blank": "",
     "malformed": "h1 ssh-rsa",
